@@ -95,7 +95,7 @@ int main(int argc, char** argv) {
         fflush(stdout);
         pid_t pid = fork();
         if (pid == 0) {
-            close(fd[0]); dup2(fd[1], 3); alarm(60);
+            close(fd[0]); dup2(fd[1], 3); alarm(300);
             std::set_terminate(on_terminate);
             errno = EINVAL;          // stale errno on entry must not matter
             std::string r = guarded([&]() { return call(a); });
